@@ -15,6 +15,11 @@ CLAIMED = {
   note="Assumed contracts: revalidatePool establishes the pool invariant; checkTxnSet and updateV2TransactionProofs do not touch the pool (frame); consensus validators/mid-state, Transaction.ID as a deterministic function, DeepCopy preserves the id. Listener callbacks run with the lock released are modelled as arbitrary state change.",
   technique="contract-based deductive verification (VC generation over go/ssa + SMT, ghost snapshots, loop invariants)",
   ref="DESIGN.md §3 C14, §7"),
+ "C19": dict(
+  text="Contracts over an abstract Store (ghost maps for best index, states, headers, bodies, supplements, applied set): PruneBlocks removes exactly the bodies of best-chain blocks below the height (all of them, only them, every other body/header/state/index entry untouched, pruned bodies remain a prefix) for every height incl. 0 and beyond the tip, by a loop invariant; MinReorgIndex returns a best-chain index such that every block from it up to the tip has a body and the one below has none; AddBlocks never calls Store.AddState for a block that was already applied (call-site precondition), also after its body was pruned. Equality with an unpruned twin over whole histories and error-not-panic of the other queries are only exercised by the scenario replay (thorough, labelled bounded).",
+  note="Assumed: the abstract Store contracts (DBStore is not yet verified against them), store coherence invariants (contiguous best chain, state index of best blocks, record/applied invariants) as preconditions, consensus.ApplyHeader index law and Block.Header().ID() == Block.ID(), reorgTo as arbitrary effect. Sequential reasoning under the manager mutex.",
+  technique="contract-based deductive verification (VC generation over go/ssa + SMT, ghost abstract state, quantified loop invariants)",
+  ref="DESIGN.md §3 C19, §7"),
 }
 
 NOT_APPLICABLE = {
